@@ -55,7 +55,7 @@ def negated_group_lists_dot(ast):
 def path_classifiers():
     return [
         ('C03-star-guard-inside-optional', lambda m: m['name'] is not None and m['impl'] is True and m['ub'] is False and
-         has_hidden_segment(m['name']) and any(star_then_wild(t) for t in seg_tokens(m['ast']))),
+         has_hidden_segment(m['name']) and globcommon.star_then_wild(m['ast'])),
         ('C03-group-then-wild', lambda m: m['name'] is not None and m['impl'] is True and m['ub'] is False and
          has_hidden_segment(m['name']) and group_then_wild(m['ast'])),
         ('C03-negated-group-dotted-alternative', lambda m: m['name'] is not None and m['impl'] is True and m['ub'] is False and m['cfg']['dot'] and
